@@ -420,6 +420,20 @@ def run_stream_cases(ctx, cases, kind='stream-scan', enforce_expect=True, prop_n
             ctx.violation({'kind': c.get('kind', kind) + '-predicate', 'case': rec, 'impl': io_[:400],
                            'expected_n': len(c['expect']), 'expect_err': c.get('expect_err')},
                           'yielded messages differ from the constructed ones: %s' % c.get('name', ''))
+        if c.get('in_domain') and 'msgs' in c:
+            # the theorems' hypotheses about the decoder, observed on this very stream: at every message start
+            # the full decode consumes and declares len(m); the metadata-only decode declares len(m) and
+            # leaves exactly the stop signature unread
+            hyp = all(o.decode(off, False)[0] == 'o%d.%d' % (len(m), len(m)) and
+                      o.decode(off, True)[0] == 'o%d.%d' % (len(m) - 4, len(m)) and m.endswith(STOP) and m.startswith(SIG)
+                      for off, m in zip(c['starts'], c['msgs']))
+            ctx.dist['decoder hypotheses H1-H3 observed at every message start' if hyp
+                     else 'decoder hypotheses NOT met at a message start'] += 1
+            if not hyp:
+                ctx.violation({'kind': 'stream-decoder-hypothesis', 'case': rec, 'no_failing_input': True,
+                               'broken': 'hypotheses of scan_exact/scan_filter about Decoder.process (suffix independence, '
+                                         'consumed = declared = actual length): a decoder-level property (C04/C12) fails here'},
+                              'decoder hypotheses not met in ' + c.get('name', ''))
         if c.get('expect') is not None:
             ctx.dist['in-domain (theorem applies)' if c.get('in_domain') else 'predicate-checked'] += 1
         else:
@@ -513,7 +527,7 @@ def make_clean_cases(ctx, pool, n_streams, n_modes=4):
             tags.append('mixed-compression')
         for io_, coe, f in modes_for(rng, n_modes):
             exp = [m for m in msgs if (f is None or filter_verdict(m, f))]
-            cases.append({'name': 'clean-%d' % k, 'stream': stream, 'starts': starts, 'info_only': io_,
+            cases.append({'name': 'clean-%d' % k, 'stream': stream, 'starts': starts, 'msgs': msgs, 'info_only': io_,
                           'continue_on_error': coe, 'filter': f, 'expect': exp, 'expect_err': None,
                           'tags': tags, 'in_domain': True})
     return cases
